@@ -198,7 +198,7 @@ impl DltTimeStamp {
     pub fn from_us(us: u64) -> Self {
         DltTimeStamp {
             seconds: (us / (1000 * 1000)) as u32,
-            microseconds: (us % (1000 * 1000)) as u32 * 1000 * 1000,
+            microseconds: (us % (1000 * 1000)) as u32,
         }
     }
 }
